@@ -98,15 +98,15 @@ def c09(prop, tier, verdict):
 
 def c16(prop, tier, verdict):
     def cl(line, s):
-        return 'auth:%s/first=%s,pipe=%s,timing=%s,hook=%s-%s' % (line.get('ev'), s.get('first'), s.get('pipe'), s.get('timing'), s.get('hookpos'), s.get('hookverdict'))
+        return 'auth:%s/first=%s,pipe=%s,timing=%s,hook=%s-%s%s' % (line.get('ev'), s.get('first'), s.get('pipe'), s.get('timing'), s.get('hookpos'), s.get('hookverdict'), ',neighbour' if s.get('neighbour') == 'good' else '')
     cov, _ = eng_generic.run(prop, tier, verdict, 'Accept', 'auth', 'PAuth', cl, mc_cfg='Accept_mc.cfg', min_count=1000, repeats=3 if tier == 'thorough' else 1,
                              nontrivial=lambda s: s['first'] != 'authgood' or s['pipe'] != 'none')
-    return 'model_checking', cov, ['ServeConn path over the in-memory connection with the shipped auth checker plugin; the ListenAndServe path is not driven',
-                                   'client behaviours: 11 first-message classes x 4 pipelining classes x 2 timings x 5 placements/verdicts of another accept hook (440 scenarios, all replayed)']
+    return 'model_checking', cov, ['both establishment paths over in-memory connections with the shipped auth checker plugin: peer.ServeConn and the accept loop behind ListenAndServe (hook H2 on an in-memory listener); real TCP/TLS/QUIC listeners are not driven',
+                                   'client behaviours: 16 first-message classes (string and byte tokens, checker panic, checker SetID) x 4 pipelining classes x 2 timings x 5 placements/verdicts of another accept hook x 2 paths, plus for byte tokens a neighbouring connection that authenticates with a valid token of the same length between receive and compare (GOMAXPROCS 1 during that scenario): 1440 scenarios, all replayed']
 
 def c17(prop, tier, verdict):
     def cl(line, s):
-        return 'secure:%s/kind=%s,marker=%s,accept=%s,enforce=%s,keys=%s,codec=%s' % (line.get('ev'), s.get('kind'), s.get('marker'), s.get('accept'), s.get('enforce'), s.get('keys'), s.get('codec'))
+        return 'secure:%s/kind=%s,marker=%s,accept=%s,enforce=%s,keys=%s,codec=%s%s' % (line.get('ev'), s.get('kind'), s.get('marker'), s.get('accept'), s.get('enforce'), s.get('keys'), s.get('codec'), ',hret=okstatus' if s.get('hret') == 'okstatus' else '')
     cov, _ = eng_generic.run(prop, tier, verdict, 'Secure', 'secure', 'PSecure', cl, mc_cfg='Secure_mc.cfg', min_count=700, repeats=3 if tier == 'thorough' else 1,
                              nontrivial=lambda s: s['marker'] != 'none' or s['accept'] != 'absent' or s['enforce'])
     return 'model_checking', cov, ['matrix complete: kind x secure marker x accept-secure x enforced secure reply x equal/different keys x key length 16/24/32 x codec json/protobuf x 4 body classes',
@@ -129,6 +129,10 @@ def c18(prop, tier, verdict):
     # a refill of more than one token per tick: capacity 10, interval 500 ms (5 per tick): partial drain, one tick, burst
     rates += [{'rate': {'cap': 10, 'interval_ms': 500, 'bursts': b, 'waits_ms': w}, 'steps': []}
               for b, w in (([1, 24], [560]), ([3, 20, 20], [540, 20]))]
+    # a limit update on a live plugin that lengthens the refill interval (5 ms -> 100 ms, 2 tokens per tick): the bursts after the first
+    # find only what the NEW refill can have added
+    rates += [{'rate': {'cap': 20, 'interval_ms': 100, 'from': {'cap': 20, 'interval_ms': 5}, 'bursts': b, 'waits_ms': w}, 'steps': []}
+              for b, w in (([30, 30, 30], [100, 100]), ([30, 16, 16, 16], [40, 60, 40]))]
     # concurrent takes: the burst is spread over 8 sessions (8 reader goroutines take tokens at the same moment), small bucket, slow refill
     rates += [{'rate': {'cap': 2, 'interval_ms': 1000, 'bursts': [24], 'waits_ms': [], 'sessions': 8}, 'steps': []} for _ in range(60 if tier == 'thorough' else 30)]
     # the take() interleavings of spec/QpsAtomic.tla on the real bucket: 8 goroutines released from a spin barrier into the plugin's header hook, a fresh bucket of 2 per round
@@ -138,9 +142,10 @@ def c18(prop, tier, verdict):
                              mc_cfg='Overload_mc.cfg', extra_cfg='VIEW view', min_count=3000, nontrivial=lambda s: len(s.get('steps', [])) > 2, extra_scenarios=rates)
     cov['qps_atomic_model'] = 'spec/QpsAtomic.tla: 4 concurrent takers on a bucket of 2 at atomic-operation granularity: %d distinct states, NeverOver holds' % rq['distinct']
     cov['atomic_model'] = 'spec/OverloadAtomic.tla: 3 concurrent take/release threads at atomic-operation granularity, limit 2: %d distinct states, NeverOver holds' % ra['distinct']
-    return 'model_checking', cov, ['connection limit 1..3, histories of at most 7 operations (connect, concurrent burst of 2-3 connects, disconnect, close, raise of the limit), one scenario per transition of the model',
+    return 'model_checking', cov, ['connection limit none / 1..3, histories of at most 7 operations (connect, concurrent burst of 2-3 connects, disconnect, close, raise or first configuration of the limit) on the accepting side over both accept paths, one scenario per transition of the model',
                                    'the interleavings of the limiter\'s atomic operations are model-checked (design level) and exercised by the concurrent bursts, not replayed step by step',
-                                   'rate limit: real ticker (50 ms), bursts of concurrent calls, bound = tokens that can be in the bucket with one tick of slack']
+                                   'rate limit: real ticker (50 ms .. 1 s), bursts of concurrent calls and pushes over 1 or 8 sessions, a live update that lengthens the refill interval, bound = tokens that can be in the bucket with one tick of slack',
+                                   'dialling side: the plugin on a peer that dials over loopback TCP and re-dials lost connections (operations connect, burst, close, raise, blip = connection dropped by the remote end and re-dialled); a remote disconnect that ends a session (failing re-dial) is not among the operations of that path']
 
 def c19(prop, tier, verdict):
     def cl(line, s):
@@ -163,7 +168,7 @@ def c15(prop, tier, verdict):
         return 'hist:%s' % what
     cov, _ = eng_generic.run(prop, tier, verdict, 'History', 'hist', 'PHistory', cl, consts={'MaxLen': '3' if tier == 'thorough' else '2'}, min_count=150,
                              nontrivial=lambda s: len(s.get('ops', [])) > 1)
-    return 'model_checking', cov, ['alphabet of 13 whole-process operations (direct and proxied calls and pushes, backend down / cut, closed sessions, unknown route, undecodable body, handler panic, auth reject, overload reject, secure key mismatch); every history of length <= 2 (quick) / 3 (thorough) in ONE process, so a mutated shared status is seen by everything after it',
+    return 'model_checking', cov, ['alphabet of 15 whole-process operations (direct and proxied calls and pushes, backend down / cut, closed sessions, unknown route, undecodable body, handler panic, auth reject, overload reject, secure key mismatch, PreReceive on a PreSession kept beyond the preparing phase with the message recycled, an accept hook that sends and returns a status object of its own); every history of length <= 2 (quick) / 3 (thorough) in ONE process, so a mutated shared status is seen by everything after it',
                                    'after every operation the verif accessor snapshots every package-level status; before and after every history four failing probes are repeated and their (code, msg, cause) compared']
 
 def c20(prop, tier, verdict):
@@ -172,7 +177,7 @@ def c20(prop, tier, verdict):
         return 'pool:%s:next=%s:muts=%s:%s' % (c.get('kind'), c.get('next'), '+'.join(c.get('muts') or []), 'escaped' if line.get('escaped') else 'differs')
     cov, _ = eng_data.run(prop, tier, verdict, 'Pool', {'MaxMut': '3' if tier == 'thorough' else '2'}, sig, 1000,
                           nontrivial=lambda c: len(c.get('muts') or []) > 0, seeds=2 if tier == 'thorough' else 1)
-    return 'exploration', cov, ['pooled kinds: socket.Message, utils.Args, pooled socket.Socket, xfer.XferPipe, handler contexts (through a live session)',
+    return 'exploration', cov, ['pooled kinds: socket.Message (also obtained through GetMessage with up to 3 settings, one of which may panic), utils.Args, pooled socket.Socket, xfer.XferPipe, handler contexts (through a live session)',
                                 'every sequence of at most 2 (quick) / 3 (thorough) mutators of the previous user, then one operation of the next user; recycling is made deterministic with GOMAXPROCS(1) and checked by pointer identity',
                                 'differential oracle: observation vector / packed bytes of the recycled object equal those of a fresh one']
 
